@@ -39,8 +39,8 @@ def one_kind(kind: str, reps: int, flush_every: int) -> Dict[str, Any]:
             body = [{"s": "add", "t": fut("A2", c(0)), "o": fut("A1", c(r % 3)), "mod": 11},
                     {"s": "if", "cmp": "ge", "a": fut("A1", c(1)), "b": c(0), "form": "ctx", "body": [{"s": "add", "t": fut("A2", c(1)), "o": c(1), "mod": 13}]}]
             if r % 3 == 2:
-                body.append({"s": "loop", "start": 0, "stop": 2, "step": 1, "form": "ctx", "body": [{"s": "add", "t": fut("A2", c(2)), "o": c(1), "mod": 17}]})
-            hist.append({"s": "loop", "start": 0, "stop": 3, "step": 1, "form": "body", "reg": "R0", "body": body})
+                body.insert(1, {"s": "loop", "start": 0, "stop": 2, "step": 1, "form": "ctx", "body": [{"s": "add", "t": fut("A2", c(2)), "o": c(1), "mod": 17}]})
+            hist.append({"s": "loop", "start": 0, "stop": 3, "step": 1, "form": "body", "reg": ("R0", "R5", "R2", "R15")[(r // 3) % 4], "body": body})
         elif kind == "future-indexed-by-future":
             # the SAME future object, whose index is the value of another array entry, first with no operation open and then
             # inside open loops (the index has to be loaded into a temporary each time: it may not clobber a live counter)
@@ -52,6 +52,13 @@ def one_kind(kind: str, reps: int, flush_every: int) -> Dict[str, Any]:
             hist.append({"s": "loop", "start": 0, "stop": 3, "step": 1, "form": "ctx" if r % 4 < 2 else "body", "body": inner})
         elif kind == "foreach":
             hist.append({"s": "foreach", "a": "A1", "enum": bool(r % 2), "body": [{"s": "add", "t": fut("A2", lv(1)), "o": fut("A1", lv(1)), "mod": 7}]})
+        elif kind == "foreach-same-context-object":
+            # one foreach / enumerate context object kept by the application and entered again: on its own, and inside an open loop
+            fe = {"s": "foreach", "a": "A1", "enum": bool(r % 2), "reuse": True, "body": [{"s": "add", "t": fut("A2", lv(1)), "o": fut("A1", lv(1)), "mod": 7}]}
+            if r % 4 < 2:
+                hist.append(fe)
+            else:
+                hist.append({"s": "loop", "start": 0, "stop": 2, "step": 1, "form": "ctx", "body": [fe, {"s": "add", "t": fut("A2", lv(1)), "o": c(1), "mod": 5}]})
         elif kind == "until":
             nq += 1
             na += 1
@@ -137,7 +144,7 @@ def long_history(rng: random.Random, nops: int, flush_every: int) -> Dict[str, A
     return {"history": hist, "meas": [rng.randrange(2) for _ in range(g.meas_used + 8)], "kind": "mixed"}
 
 
-KINDS = ["ez", "nz", "eq", "ne", "lt", "ge", "if-two-futures", "loop", "loop-named-register", "foreach", "until", "add-constants", "add-future", "future-indexed-by-future", "measure-array", "measure-register", "measure-register-nonblocking-flush", "register-add-future", "measure-into-the-same-register-future", "nested", "empty-bodies"]
+KINDS = ["ez", "nz", "eq", "ne", "lt", "ge", "if-two-futures", "loop", "loop-named-register", "foreach", "foreach-same-context-object", "until", "add-constants", "add-future", "future-indexed-by-future", "measure-array", "measure-register", "measure-register-nonblocking-flush", "register-add-future", "measure-into-the-same-register-future", "nested", "empty-bodies"]
 
 
 EPR_KINDS = ["create_keep", "create_keep_with_info", "recv_keep", "create_keep_sequential", "recv_keep_sequential", "create_context", "recv_context",
